@@ -553,9 +553,7 @@ fn build(dt: &DataType, col: &[Val], o: Bo) -> Result<ArrayRef, String> {
             // views built by hand: <=12 bytes inline, else (len, prefix, buffer index, offset)
             let mut views: Vec<u8> = vec![];
             let mut bufs: Vec<Vec<u8>> = vec![];
-            if o.alt != 1 {
-                bufs.push(vec![]);
-            }
+            // alt 0: all long values share one data buffer (none if every value is inline); alt 1: one buffer each
             for v in col {
                 match v {
                     Val::P(b) if b.len() <= 12 => {
@@ -569,6 +567,9 @@ fn build(dt: &DataType, col: &[Val], o: Bo) -> Result<ArrayRef, String> {
                             bufs.push(b.clone());
                             (bufs.len() - 1, 0)
                         } else {
+                            if bufs.is_empty() {
+                                bufs.push(vec![]);
+                            }
                             let off = bufs[0].len();
                             bufs[0].extend_from_slice(b);
                             (0, off)
